@@ -231,3 +231,64 @@ def c20_elk_self(viol, inp, param):
     dx = max(box[0] - pt[0], pt[0] - box[2], 0)
     dy = max(box[1] - pt[1], pt[1] - box[3], 0)
     return max(dx, dy) <= 10
+
+
+# ---- oracle findings (C37, C39, C40) ----------------------------------------------------------------
+def _strip_index(s):
+    return re.sub(r"\[\d+\]$", "", s)
+
+
+@classifier("c37_parallel_connection_created_in_front")
+def c37_parallel(viol, inp, param):
+    d = json.loads(viol["detail"])
+    if viol["aspect"] == "created-connection-has-not-the-returned-id":
+        actual, returned = d[0], d[1]
+        return actual != returned and _strip_index(actual) == _strip_index(returned)
+    if viol["aspect"] == "create-changed-an-existing-connection":
+        returned = d[1]
+        m = re.search(r"\[(\d+)\]$", returned)
+        return bool(m) and int(m.group(1)) >= 1
+    return False
+
+
+@classifier("c40_reconnect_index_ignores_arrow_direction")
+def c40_reconnect(viol, inp, param):
+    if viol["aspect"] != "connection-id-after-the-edit-differs-from-the-predicted-one":
+        return False
+    op, before, actual, predicted = json.loads(viol["detail"])
+    return op == "reconnect" and actual != predicted and _strip_index(actual) == _strip_index(predicted)
+
+
+@classifier("c40_rename_collision_with_nested_path")
+def c40_rename_collision(viol, inp, param):
+    d = json.loads(viol["detail"])
+    if viol["aspect"] in ("object-id-after-the-edit-differs-from-the-predicted-one", "connection-id-after-the-edit-differs-from-the-predicted-one"):
+        op, before, actual, predicted = d
+        unq = lambda x: x.replace("'", "").replace('"', "")
+        return op == "rename" and unq(re.sub(r" \d+", "", actual)) == unq(predicted)
+    if viol["aspect"] == "renamed-object-has-not-the-requested-name":
+        wanted, got = d
+        return re.fullmatch(re.escape(wanted) + r" \d+", got) is not None
+    return False
+
+
+@classifier("c40_delete_predicts_change_for_removed_connection_to_own_descendant")
+def c40_delete_removed(viol, inp, param):
+    if viol["aspect"] != "id-change-predicted-for-a-removed-connection":
+        return False
+    eid = json.loads(viol["detail"])
+    m = re.search(r"\((.+?) (?:->|<-|--|<->) (.+?)\)\[\d+\]$", eid)
+    if not m:
+        return False
+    a, b = m.group(1), m.group(2)
+    return a.startswith(b + ".") or b.startswith(a + ".")
+
+
+@classifier("c41_move_into_inherited_container")
+def c41_move_inherited(viol, inp, param):
+    if viol["aspect"] != "edit-changed-a-board-that-neither-is-nor-inherits-from-the-addressed-one":
+        return False
+    op, board, changed, ok, inherited = json.loads(viol["detail"])
+    # the edit is addressed to a scenario/step and its target (or, for a move, the destination container) is an
+    # element the scenario inherits from the base board
+    return ok == 1 and len(board) > 0 and board[0] in ("s1", "s2") and inherited == 1
